@@ -5,7 +5,20 @@ type nat =
 | O
 | S of nat
 
+type ('a, 'b) sum =
+| Inl of 'a
+| Inr of 'b
+
+val length : 'a1 list -> nat
+
 val app : 'a1 list -> 'a1 list -> 'a1 list
+
+type comparison =
+| Eq
+| Lt
+| Gt
+
+val compOpp : comparison -> comparison
 
 val add : nat -> nat -> nat
 
@@ -22,6 +35,8 @@ module Nat :
 
 val nth : nat -> 'a1 list -> 'a1 -> 'a1
 
+val rev : 'a1 list -> 'a1 list
+
 val map : ('a1 -> 'a2) -> 'a1 list -> 'a2 list
 
 val fold_left : ('a1 -> 'a2 -> 'a1) -> 'a2 list -> 'a1 -> 'a1
@@ -32,6 +47,8 @@ val filter : ('a1 -> bool) -> 'a1 list -> 'a1 list
 
 val firstn : nat -> 'a1 list -> 'a1 list
 
+val skipn : nat -> 'a1 list -> 'a1 list
+
 type positive =
 | XI of positive
 | XO of positive
@@ -41,15 +58,152 @@ type n =
 | N0
 | Npos of positive
 
+type z =
+| Z0
+| Zpos of positive
+| Zneg of positive
+
 module Pos :
  sig
+  val succ : positive -> positive
+
+  val add : positive -> positive -> positive
+
+  val add_carry : positive -> positive -> positive
+
+  val pred_double : positive -> positive
+
+  val pred_N : positive -> n
+
+  val mul : positive -> positive -> positive
+
+  val iter : ('a1 -> 'a1) -> 'a1 -> positive -> 'a1
+
+  val div2 : positive -> positive
+
+  val div2_up : positive -> positive
+
+  val compare_cont : comparison -> positive -> positive -> comparison
+
+  val compare : positive -> positive -> comparison
+
   val eqb : positive -> positive -> bool
+
+  val coq_Nsucc_double : n -> n
+
+  val coq_Ndouble : n -> n
+
+  val coq_lor : positive -> positive -> positive
+
+  val coq_land : positive -> positive -> n
+
+  val ldiff : positive -> positive -> n
+
+  val testbit : positive -> n -> bool
+
+  val iter_op : ('a1 -> 'a1 -> 'a1) -> positive -> 'a1 -> 'a1
+
+  val to_nat : positive -> nat
+
+  val of_succ_nat : nat -> positive
  end
 
 module N :
  sig
+  val succ_pos : n -> positive
+
+  val add : n -> n -> n
+
+  val mul : n -> n -> n
+
   val eqb : n -> n -> bool
+
+  val coq_lor : n -> n -> n
+
+  val ldiff : n -> n -> n
+
+  val testbit : n -> n -> bool
+
+  val to_nat : n -> nat
  end
+
+module Z :
+ sig
+  val double : z -> z
+
+  val succ_double : z -> z
+
+  val pred_double : z -> z
+
+  val pos_sub : positive -> positive -> z
+
+  val add : z -> z -> z
+
+  val opp : z -> z
+
+  val sub : z -> z -> z
+
+  val mul : z -> z -> z
+
+  val pow_pos : z -> positive -> z
+
+  val pow : z -> z -> z
+
+  val compare : z -> z -> comparison
+
+  val leb : z -> z -> bool
+
+  val ltb : z -> z -> bool
+
+  val geb : z -> z -> bool
+
+  val gtb : z -> z -> bool
+
+  val eqb : z -> z -> bool
+
+  val max : z -> z -> z
+
+  val min : z -> z -> z
+
+  val to_nat : z -> nat
+
+  val of_nat : nat -> z
+
+  val of_N : n -> z
+
+  val pos_div_eucl : positive -> z -> z * z
+
+  val div_eucl : z -> z -> z * z
+
+  val div : z -> z -> z
+
+  val modulo : z -> z -> z
+
+  val odd : z -> bool
+
+  val div2 : z -> z
+
+  val testbit : z -> z -> bool
+
+  val shiftl : z -> z -> z
+
+  val shiftr : z -> z -> z
+
+  val coq_land : z -> z -> z
+ end
+
+type ascii =
+| Ascii of bool * bool * bool * bool * bool * bool * bool * bool
+
+val n_of_digits : bool list -> n
+
+val n_of_ascii : ascii -> n
+
+val nat_of_ascii : ascii -> nat
+
+type string =
+| EmptyString
+| String of ascii * string
 
 type addr = bool list
 
@@ -183,3 +337,402 @@ val replay1 :
 val replay :
   cb list -> (((bool * addr) * nat) * elem) list ->
   (((bool * addr) * nat) * elem) list option
+
+val wrapu : z -> z -> z
+
+val wraps : z -> z -> z
+
+val shift_ok : z -> z -> bool
+
+val notu : z -> z -> z
+
+val guard : bool -> 'a1 option -> 'a1 option
+
+val c_RTR_CONNECTING : z
+
+val c_RTR_ESTABLISHED : z
+
+val c_RTR_RESET : z
+
+val c_RTR_SYNC : z
+
+val c_RTR_FAST_RECONNECT : z
+
+val c_RTR_ERROR_NO_DATA_AVAIL : z
+
+val c_RTR_ERROR_NO_INCR_UPDATE_AVAIL : z
+
+val c_RTR_ERROR_FATAL : z
+
+val c_RTR_ERROR_TRANSPORT : z
+
+val c_RTR_SHUTDOWN : z
+
+val c_RTR_CLOSED : z
+
+val c_RTR_INTERVAL_MODE_IGNORE_ANY : z
+
+val c_RTR_INTERVAL_MODE_ACCEPT_ANY : z
+
+val c_RTR_INTERVAL_MODE_DEFAULT_MIN_MAX : z
+
+val c_SERIAL_NOTIFY : z
+
+val c_SERIAL_QUERY : z
+
+val c_RESET_QUERY : z
+
+val c_CACHE_RESPONSE : z
+
+val c_IPV4_PREFIX : z
+
+val c_IPV6_PREFIX : z
+
+val c_EOD : z
+
+val c_CACHE_RESET : z
+
+val c_ROUTER_KEY : z
+
+val c_ERROR : z
+
+val c_CORRUPT_DATA : z
+
+val c_NO_DATA_AVAIL : z
+
+val c_UNSUPPORTED_PROTOCOL_VER : z
+
+val c_WITHDRAWAL_OF_UNKNOWN_RECORD : z
+
+val c_DUPLICATE_ANNOUNCEMENT : z
+
+val c_UNEXPECTED_PROTOCOL_VERSION : z
+
+val c_RTR_EXPIRATION_MAX : z
+
+val c_RTR_EXPIRATION_MIN : z
+
+val c_RTR_MAX_PDU_LEN : z
+
+val c_RTR_PROTOCOL_MAX_SUPPORTED_VERSION : z
+
+val c_RTR_PROTOCOL_MIN_SUPPORTED_VERSION : z
+
+val c_RTR_RECV_TIMEOUT : z
+
+val c_RTR_REFRESH_MAX : z
+
+val c_RTR_REFRESH_MIN : z
+
+val c_RTR_RETRY_MAX : z
+
+val c_RTR_RETRY_MIN : z
+
+val sizeof_pdu_cache_response : z
+
+val sizeof_pdu_end_of_data_v0 : z
+
+val sizeof_pdu_end_of_data_v1 : z
+
+val sizeof_pdu_header : z
+
+val sizeof_pdu_ipv4 : z
+
+val sizeof_pdu_ipv6 : z
+
+val sizeof_pdu_reset_query : z
+
+val sizeof_pdu_router_key : z
+
+val sizeof_pdu_serial_notify : z
+
+val sizeof_pdu_serial_query : z
+
+val lrtr_get_bits_gen : z -> z -> z -> z option
+
+val hz_zero_code : bool
+
+type byte = z
+
+val be16 : byte -> byte -> z
+
+val be32 : byte -> byte -> byte -> byte -> z
+
+val enc16 : z -> byte list
+
+val enc32 : z -> byte list
+
+val nthb : byte list -> nat -> byte
+
+val get16 : byte list -> nat -> z
+
+val get32 : byte list -> nat -> z
+
+val zlen : 'a1 list -> z
+
+val bits_of_bytes : byte list -> bool list
+
+val list_eqb : ('a1 -> 'a1 -> bool) -> 'a1 list -> 'a1 list -> bool
+
+val prec_eqb :
+  (((((bool * bool list) * z) * z) * z) * z) -> (((((bool * bool
+  list) * z) * z) * z) * z) -> bool
+
+val krec_eqb :
+  (((z * byte list) * byte list) * z) -> (((z * byte list) * byte list) * z)
+  -> bool
+
+val psrc : (((((bool * bool list) * z) * z) * z) * z) -> z
+
+val ksrc : (((z * byte list) * byte list) * z) -> z
+
+type ev =
+| EvData of byte list
+| EvErr of z
+| EvWait of z
+| EvStop
+
+type titem =
+| TOpen of bool * z
+| TClose
+| TSend of byte list
+| TSendFail of z
+| TRecvN of z * z
+| TRecvWB of z * z
+| TRecvErr of z * z
+| TRecvStop of z
+| TSleep of z
+| TState of z
+| TPfx of bool * (((((bool * bool list) * z) * z) * z) * z)
+| TKey of bool * (((z * byte list) * byte list) * z)
+| TEnd of z
+| TStopping
+| TDump of z * z list * (((((bool * bool list) * z) * z) * z) * z) list
+   * (((z * byte list) * byte list) * z) list
+
+type sock = { st : z; version : z; session_id : z; req_sess : bool;
+              serial : z; last_update : z; refresh_iv : z; expire_iv : 
+              z; retry_iv : z; iv_mode : z; has_recv : bool; resetting : 
+              bool }
+
+type world = { sk : sock;
+               pfx : (((((bool * bool list) * z) * z) * z) * z) list;
+               keys : (((z * byte list) * byte list) * z) list;
+               evs : ev list; opens : bool list; sends : z list; now : 
+               z; out : titem list }
+
+type exc =
+| XEnd of z
+| XStop
+
+type 'a res =
+| Ok of 'a * world
+| Exc of exc * world
+
+val bind : (world -> 'a1 res) -> ('a1 -> world -> 'a2 res) -> world -> 'a2 res
+
+val ret : 'a1 -> world -> 'a1 res
+
+val emit : titem -> world -> unit res
+
+val get_sk : world -> sock res
+
+val set_sk : sock -> world -> unit res
+
+val get_now : world -> z res
+
+val get_w : world -> world res
+
+val set_tables :
+  (((((bool * bool list) * z) * z) * z) * z) list -> (((z * byte list) * byte
+  list) * z) list -> world -> unit res
+
+val upd_st : sock -> z -> sock
+
+val upd_version : sock -> z -> sock
+
+val upd_session : sock -> z -> sock
+
+val upd_req : sock -> bool -> sock
+
+val upd_serial : sock -> z -> sock
+
+val upd_last : sock -> z -> sock
+
+val upd_ivs : sock -> z -> z -> z -> sock
+
+val upd_hasrecv : sock -> bool -> sock
+
+val upd_resetting : sock -> bool -> sock
+
+val modify_sk : (sock -> sock) -> world -> unit res
+
+val change_state : z -> world -> unit res
+
+val tr_recv_evs :
+  ev list -> z -> z -> z -> z -> (((z, byte list) sum option * ev
+  list) * z) * titem list
+
+val tr_recv : z -> z -> world -> (z, byte list) sum res
+
+val tr_recv_all_loop :
+  nat -> z -> z -> byte list -> world -> (z, byte list) sum res
+
+val tr_recv_all : z -> z -> world -> (z, byte list) sum res
+
+val tr_send : byte list -> world -> z res
+
+val tr_send_all_loop : nat -> byte list -> z -> world -> z res
+
+val tr_send_all : byte list -> world -> z res
+
+val tr_open : world -> bool res
+
+val tr_close : world -> unit res
+
+val do_sleep : z -> world -> unit res
+
+val send_pdu : byte list -> world -> z res
+
+val str_bytes : string -> byte list
+
+val send_error_pdu : byte list -> z -> byte list -> world -> z res
+
+val send_error_from_host : byte list -> z -> byte list -> world -> z res
+
+val send_serial_query : world -> z res
+
+val send_reset_query : world -> z res
+
+val check_size : byte list -> bool
+
+val txt_too_small : byte list
+
+val txt_too_big : byte list
+
+val recv_err : z -> world -> (z, byte list) sum res
+
+val receive_pdu : z -> world -> (z, byte list) sum res
+
+val handle_error_pdu : byte list -> world -> unit res
+
+val iv_range : z -> z -> z -> z
+
+val iv_apply : z -> z -> z -> z -> z -> z
+
+val apply_eod_intervals : sock -> byte list -> sock
+
+val pmem :
+  (((((bool * bool list) * z) * z) * z) * z) -> (((((bool * bool
+  list) * z) * z) * z) * z) list -> bool
+
+val kmem :
+  (((z * byte list) * byte list) * z) -> (((z * byte list) * byte list) * z)
+  list -> bool
+
+val prem :
+  (((((bool * bool list) * z) * z) * z) * z) -> (((((bool * bool
+  list) * z) * z) * z) * z) list -> (((((bool * bool
+  list) * z) * z) * z) * z) list
+
+val krem :
+  (((z * byte list) * byte list) * z) -> (((z * byte list) * byte list) * z)
+  list -> (((z * byte list) * byte list) * z) list
+
+val prec_of_pdu : byte list -> ((((bool * bool list) * z) * z) * z) * z
+
+val krec_of_pdu : byte list -> ((z * byte list) * byte list) * z
+
+val upd_pfx :
+  bool -> z -> (((((bool * bool list) * z) * z) * z) * z) -> (((((bool * bool
+  list) * z) * z) * z) * z) list -> ((((((bool * bool
+  list) * z) * z) * z) * z) list * z) * titem list
+
+val upd_key :
+  bool -> z -> (((z * byte list) * byte list) * z) -> (((z * byte
+  list) * byte list) * z) list -> ((((z * byte list) * byte list) * z)
+  list * z) * titem list
+
+val pdu_flags : byte list -> z
+
+val txt_pfx_flags : byte list
+
+val txt_key_flags : byte list
+
+val report_update_failure : byte list -> z -> bool -> world -> unit res
+
+val emit_all : titem list -> world -> unit res
+
+val apply_pfx :
+  bool -> byte list list -> (((((bool * bool list) * z) * z) * z) * z) list
+  -> byte list list -> ((((((bool * bool list) * z) * z) * z) * z)
+  list * titem list) * ((byte list * z) * byte list list) option
+
+val apply_keys :
+  bool -> byte list list -> (((z * byte list) * byte list) * z) list -> byte
+  list list -> ((((z * byte list) * byte list) * z) list * titem
+  list) * ((byte list * z) * byte list list) option
+
+val undo_pfx :
+  bool -> byte list list -> (((((bool * bool list) * z) * z) * z) * z) list
+  -> ((((((bool * bool list) * z) * z) * z) * z) list * titem list) * bool
+
+val undo_keys :
+  bool -> byte list list -> (((z * byte list) * byte list) * z) list ->
+  ((((z * byte list) * byte list) * z) list * titem list) * bool
+
+val spki_src_remove_notifies : bool
+
+val src_remove_all : world -> unit res
+
+val dec_digits : nat -> z -> byte list -> byte list
+
+val dec : z -> byte list
+
+val txt_eod_session : z -> z -> byte list
+
+val purge_after_failed_undo : world -> unit res
+
+val process_eod :
+  byte list -> byte list list -> byte list list -> byte list list -> world ->
+  z res
+
+val prefix_lengths_valid : byte list -> bool
+
+val txt_pfx_len : byte list
+
+val txt_unexp_store : byte list
+
+val txt_unexp_sync : byte list
+
+val txt_wrong_session : byte list
+
+val store_loop :
+  nat -> byte list list -> byte list list -> byte list list -> world -> z res
+
+val receive_and_store : nat -> world -> z res
+
+val sync_first : nat -> world -> byte list option res
+
+val rtr_sync : nat -> world -> z res
+
+val wait_for_sync : world -> z res
+
+val purge_outdated : world -> unit res
+
+val fsm_step : nat -> world -> unit res
+
+val rtr_stop : world -> unit res
+
+val dump : z -> world -> unit res
+
+val run_fsm : nat -> nat -> world -> world
+
+val init_sock : z -> z -> z -> z -> sock
+
+val init_ok : z -> z -> z -> bool
+
+val run_script :
+  nat -> nat -> z -> z -> z -> z -> (((((bool * bool
+  list) * z) * z) * z) * z) list -> (((z * byte list) * byte list) * z) list
+  -> ev list -> bool list -> z list -> titem list
